@@ -99,13 +99,22 @@ def diff(a, b, path="", out=None, limit=12):
     return out
 
 
-def memo_state(objs):
-    """Which per-instance memo attributes (_cached_*) are filled, for a dict name -> object."""
+def memo_state(objs, canon=None):
+    """Per-instance memo attributes (_cached_*) of every node of a dict name -> object: (owner, node id, attribute, content).
+    The content matters: a memo may be filled by a call, but once filled it must not change while the object does not."""
     from .ast import walk
     out = []
     for k in sorted(objs):
         for o in walk(objs[k]).values():
             for a in sorted(getattr(o, "__dict__", {})):
                 if a.startswith("_cached_"):
-                    out.append((k, repr(o.id), a))
+                    v = getattr(o, a)
+                    out.append((k, repr(o.id), a, repr(canon(v)) if canon else repr(fingerprint(v))))
     return tuple(out)
+
+
+def memo_changed(before, after):
+    """Memo entries that were filled before and have another content (or vanished) afterwards."""
+    b = {e[:3]: e[3] for e in before}
+    a = {e[:3]: e[3] for e in after}
+    return [(k, b[k][:200], a.get(k, "<gone>")[:200]) for k in b if a.get(k) != b[k]]
